@@ -860,14 +860,23 @@ class SimFile:
         self.pos = 0
         self.closed = False
         w = W
+        # a handle refers to the file (inode) it was opened on, not to the path: after remove + re-create an old handle
+        # still sees the old content
+        self.data = None
         if "w" in mode:
-            vop("file.create", self, _always, lambda: w.fs.__setitem__(path, bytearray()))
+            def create():
+                w.fs[path] = bytearray()
+                self.data = w.fs[path]
+            vop("file.create", self, _always, create)
         elif "a" in mode:
-            vop("file.open_a", self, _always, lambda: w.fs.setdefault(path, bytearray()))
+            def open_a():
+                self.data = w.fs.setdefault(path, bytearray())
+            vop("file.open_a", self, _always, open_a)
         else:
             def eff():
                 if path not in w.fs:
                     return FileNotFoundError(path)
+                self.data = w.fs[path]
                 return None
             r = vop("file.open_r", self, _always, eff)
             if r is not None:
@@ -884,14 +893,14 @@ class SimFile:
         self.buf = ""
         w = W
         cut = max(1, len(data) // 2)
-        vop("file.write", self, _always, lambda: w.fs[self.path].extend(data[:cut]), "part1")
+        vop("file.write", self, _always, lambda: self.data.extend(data[:cut]), "part1")
         if data[cut:]:
-            vop("file.write", self, _always, lambda: w.fs[self.path].extend(data[cut:]), "part2")
+            vop("file.write", self, _always, lambda: self.data.extend(data[cut:]), "part2")
 
     def tell(self):
         if "r" in self.mode:
             return self.pos
-        return vop("file.tell", self, _always, lambda: len(W.fs[self.path]) + len(self.buf.encode("utf-8")))
+        return vop("file.tell", self, _always, lambda: len(self.data) + len(self.buf.encode("utf-8")))
 
     def seek(self, off, whence=0):
         self.pos = off
@@ -901,7 +910,7 @@ class SimFile:
         w = W
 
         def eff():
-            data = bytes(w.fs.get(self.path, b""))
+            data = bytes(self.data)
             end = data.find(b"\n", self.pos)
             chunk = data[self.pos:] if end < 0 else data[self.pos:end + 1]
             self.pos += len(chunk)
@@ -912,7 +921,7 @@ class SimFile:
         w = W
 
         def eff():
-            data = bytes(w.fs.get(self.path, b""))[self.pos:]
+            data = bytes(self.data)[self.pos:]
             self.pos += len(data)
             return data.decode("utf-8", errors="replace")
         return vop("file.read", self, _always, eff)
